@@ -71,5 +71,10 @@ Lemma calc_operands_pinned :
    (s "dynamic_type", map s ["NUMBER"; "DYNAMIC_TYPE"; "PERCENT"]%string, map s ["Add"; "Div"; "Mul"; "Sub"]%string)].
 Proof. reflexivity. Qed.
 
+(* no object of config.json has the same key twice: every table the model loads is a function of its keys (a second
+   row for a key would silently replace the first one in serde_json and in the translator alike) *)
+Lemma config_has_no_duplicate_keys : CONFIG_DUPLICATE_KEYS = [].
+Proof. reflexivity. Qed.
+
 Print Assumptions pass_order_pinned.
 Print Assumptions rule_registry_pinned.
